@@ -8,6 +8,7 @@ pub fn dispatch(op: &str, rest: &str) -> String {
         "name" => op_name(G::new(&unhex(a[0])).as_slice(), a[1].parse().unwrap()),
         "script" => crate::ops_script::op_script(&a),
         "ascript" => crate::ops_script::op_ascript(&a),
+        "net" => crate::netlab::op_net(&a),
         "aiter" => crate::ops_script::op_aiter(G::new(&unhex(a[0])).as_slice()),
         "text" => crate::ops_text::op_text(&unhex(a[0])),
         "textpair" => crate::ops_text::op_textpair(&unhex(a[0]), &unhex(a[1])),
